@@ -34,6 +34,17 @@ Theorem c02_at_most_one :
 Proof. exact at_most_one. Qed.
 Print Assumptions c02_at_most_one.
 
+(** ... and per JobConfig UID, as the property is worded, whenever a UID is only ever used
+    under one JobConfig name (Kubernetes never reuses a UID) *)
+Theorem c02_at_most_one_per_uid :
+  forall ops j1 j2,
+    let w := rrun_world init_rworld ops in
+    (forall a b, In a (rw_api w) -> In b (rw_api w) -> cj_owner_uid a = cj_owner_uid b -> cj_owner_name a = cj_owner_name b) ->
+    In j1 (rw_api w) -> In j2 (rw_api w) ->
+    cj_owner_uid j1 = cj_owner_uid j2 -> cj_ann j1 = cj_ann j2 -> j1 = j2.
+Proof. exact at_most_one_per_uid. Qed.
+Print Assumptions c02_at_most_one_per_uid.
+
 (** identity of every Job in every reachable state *)
 Theorem c02_identity :
   forall ops j, In j (rw_api (rrun_world init_rworld ops)) ->
